@@ -129,6 +129,56 @@ class SeekMachine(Machine):
         return [(lo, up, adj, moved)] + viol
 
 
+def rewind_reset(ctx, chk, R6):
+    """Sibling agreement between __init__ and the rewind block of the decompresser (shared with C01 and C10)."""
+    prog = ctx.prog
+    zcls = prog.cls(ZL)
+    si = prog.fn(ZL + '._seek_internal')
+    flag = '_use_uncompressed_stream'
+    # ---------------------------------------------------------------- R6: rewind resets the whole decompression state
+
+    def attr_assigns(fn, stmts, depth=1):
+        out = {}
+        for st in stmts:
+            for n in ast.walk(st):
+                if isinstance(n, (ast.Assign, ast.AnnAssign)):
+                    tgts = n.targets if isinstance(n, ast.Assign) else [n.target]
+                    vals = [n.value] * len(tgts)
+                    if isinstance(n, ast.Assign) and len(tgts) == 1 and isinstance(tgts[0], ast.Tuple) and isinstance(n.value, ast.Tuple):
+                        tgts, vals = tgts[0].elts, n.value.elts
+                    for t, v in zip(tgts, vals):
+                        if isinstance(t, ast.Attribute) and isinstance(t.value, ast.Name) and t.value.id == 'self' and v is not None:
+                            out[t.attr] = v
+                elif isinstance(n, ast.Call) and depth > 0 and isinstance(n.func, ast.Attribute) and isinstance(n.func.value, ast.Name) and n.func.value.id == 'self':
+                    h = prog.find_method(zcls, n.func.attr)
+                    if h is not None and h.name not in ('seek', 'read', '_seek_internal', '_read_compressed', 'tell'):
+                        out.update(attr_assigns(h, h.node.body, depth - 1))
+        return out
+    zinit = prog.fn(ZL + '.__init__')
+    init_as = attr_assigns(zinit, zinit.node.body)
+    iparams = set(zinit.params)
+    state = {a: v for a, v in init_as.items() if not (names_in(v) & iparams) and a != flag}
+    chk.require(len(state) >= 3, f'{ZL}.__init__: expected at least 3 decompression-state attributes, found {sorted(state)}')
+    reset_blocks = []
+    for n in walk_local(si.node):
+        if isinstance(n, ast.If):
+            for blk in (n.body, n.orelse):
+                if any(isinstance(c, ast.Call) and isinstance(c.func, ast.Attribute) and c.func.attr == 'seek' and '_compressed_stream' in names_in(c.func.value)
+                       and c.args and isinstance(c.args[0], ast.Constant) and c.args[0].value == 0 for st in blk for c in ast.walk(st)):
+                    reset_blocks.append(blk)
+    chk.require(reset_blocks, f'{si.qualname}: the rewind block (compressed_stream.seek(0)) was not found')
+    for blk in reset_blocks:
+        got = attr_assigns(si, blk)
+        missing = [a for a in state if a not in got]
+        differ = [a for a in state if a in got and norm(got[a]) != norm(state[a])]
+        if missing or differ:
+            chk.bad(R6, si.qualname, f'rewind block at line {blk[0].lineno}', f'rewinding the compressed stream does not reset {sorted(missing + differ)} to its initial value: bytes inflated for the old '
+                    'position are served after the rewind (wrong content / more bytes than the object has)', where=f'{si.module.relpath}:{blk[0].lineno}')
+        else:
+            chk.ok(R6, si.qualname, f'rewind block at line {blk[0].lineno}', detail=f'resets {sorted(state)} exactly as __init__ does')
+
+
+
 def first_guard_rejects_whence(fn):
     """True iff the first executable statement of `fn` raises when whence is not one of 0,1,2."""
     body = [s for s in fn.node.body if not (isinstance(s, ast.Expr) and isinstance(s.value, ast.Constant))]
@@ -301,48 +351,8 @@ def run(ctx):
         else:
             chk.bad(R5, f'{ZL}.{mname}', 'proxy test', f'{mname}() no longer tests the proxy flag first: after the switch it would use the stale compressed stream', where=f'{zcls.module.relpath}:{mf.lineno}')
 
-    # ---------------------------------------------------------------- R6: rewind resets the whole decompression state
     R6 = chk.rule('C07.R6', 'decompresser rewind (re-inflate from 0) resets every piece of decompression state that __init__ initialises', 1)
-
-    def attr_assigns(fn, stmts, depth=1):
-        out = {}
-        for st in stmts:
-            for n in ast.walk(st):
-                if isinstance(n, (ast.Assign, ast.AnnAssign)):
-                    tgts = n.targets if isinstance(n, ast.Assign) else [n.target]
-                    vals = [n.value] * len(tgts)
-                    if isinstance(n, ast.Assign) and len(tgts) == 1 and isinstance(tgts[0], ast.Tuple) and isinstance(n.value, ast.Tuple):
-                        tgts, vals = tgts[0].elts, n.value.elts
-                    for t, v in zip(tgts, vals):
-                        if isinstance(t, ast.Attribute) and isinstance(t.value, ast.Name) and t.value.id == 'self' and v is not None:
-                            out[t.attr] = v
-                elif isinstance(n, ast.Call) and depth > 0 and isinstance(n.func, ast.Attribute) and isinstance(n.func.value, ast.Name) and n.func.value.id == 'self':
-                    h = prog.find_method(zcls, n.func.attr)
-                    if h is not None and h.name not in ('seek', 'read', '_seek_internal', '_read_compressed', 'tell'):
-                        out.update(attr_assigns(h, h.node.body, depth - 1))
-        return out
-    zinit = prog.fn(ZL + '.__init__')
-    init_as = attr_assigns(zinit, zinit.node.body)
-    iparams = set(zinit.params)
-    state = {a: v for a, v in init_as.items() if not (names_in(v) & iparams) and a != flag}
-    chk.require(len(state) >= 3, f'{ZL}.__init__: expected at least 3 decompression-state attributes, found {sorted(state)}')
-    reset_blocks = []
-    for n in walk_local(si.node):
-        if isinstance(n, ast.If):
-            for blk in (n.body, n.orelse):
-                if any(isinstance(c, ast.Call) and isinstance(c.func, ast.Attribute) and c.func.attr == 'seek' and '_compressed_stream' in names_in(c.func.value)
-                       and c.args and isinstance(c.args[0], ast.Constant) and c.args[0].value == 0 for st in blk for c in ast.walk(st)):
-                    reset_blocks.append(blk)
-    chk.require(reset_blocks, f'{si.qualname}: the rewind block (compressed_stream.seek(0)) was not found')
-    for blk in reset_blocks:
-        got = attr_assigns(si, blk)
-        missing = [a for a in state if a not in got]
-        differ = [a for a in state if a in got and norm(got[a]) != norm(state[a])]
-        if missing or differ:
-            chk.bad(R6, si.qualname, f'rewind block at line {blk[0].lineno}', f'rewinding the compressed stream does not reset {sorted(missing + differ)} to its initial value: bytes inflated for the old '
-                    'position are served after the rewind (wrong content / more bytes than the object has)', where=f'{si.module.relpath}:{blk[0].lineno}')
-        else:
-            chk.ok(R6, si.qualname, f'rewind block at line {blk[0].lineno}', detail=f'resets {sorted(state)} exactly as __init__ does')
+    rewind_reset(ctx, chk, R6)
 
     return chk.finish(
         explanation=('Static checks of the stream classes\' API contract shape: per-whence typestate on PackedObjectReader.seek (bounds checks valid for the variable that '
